@@ -135,7 +135,7 @@ fn layer_b(cli: &Cli, rep: &mut Report) {
         let w = WorldOpts {
             scenes: 1 + rng.usize(2),
             same_region: rng.chance(0.5),
-            preset: *rng.pick(&["crossing", "convoy", "crowd", "convoy", "crowd", "random", "stop-and-go"]),
+            preset: *rng.pick(&["crossing", "convoy", "crowd", "convoy", "crowd", "random", "stop-and-go", "teleport"]),
             rotated: rng.chance(0.25),
             features: false,
             feat_dim: 1,
@@ -144,6 +144,7 @@ fn layer_b(cli: &Cli, rep: &mut Report) {
             steps: 40,
             low_quality: false,
             avoid_coincident: false,
+            low_conf: rng.chance(0.15),
         };
         let h = HistOpts { len: if cli.small { 6 } else { 30 + rng.usize(50) }, lifecycle_ops: false, clear_wasted: false, auto_waste_ops: false, batches: false, empty_calls: false };
         let ops = gen_history(&mut rng, &w, &h);
